@@ -19,6 +19,7 @@
 use super::Command;
 use crate::Runtime;
 use crate::trap::run_exit_trap;
+use crate::trap::run_traps_for_caught_signals;
 use enumset::EnumSet;
 use itertools::Itertools as _;
 use std::ops::ControlFlow::{Break, Continue};
@@ -109,12 +110,25 @@ async fn execute_commands_in_pipeline<S: Runtime + 'static>(
         1 => commands[0].execute(env).await,
 
         _ => {
-            if env.controls_jobs() {
-                execute_job_controlled_pipeline(env, commands).await?
+            let main_result = if env.controls_jobs() {
+                execute_job_controlled_pipeline(env, commands).await
             } else {
-                execute_multi_command_pipeline(env, commands).await?
+                execute_multi_command_pipeline(env, commands).await
+            };
+            let main_result = match main_result {
+                Continue(()) => env.apply_errexit(),
+                Break(divert) => Break(divert),
+            };
+
+            // The end of the pipeline is a command boundary just like the end
+            // of a single command: run the traps for signals caught meanwhile.
+            let trap_result = run_traps_for_caught_signals(env).await;
+
+            match (main_result, trap_result) {
+                (_, Continue(())) => main_result,
+                (Continue(()), _) => trap_result,
+                (Break(main_divert), Break(trap_divert)) => Break(main_divert.max(trap_divert)),
             }
-            env.apply_errexit()
         }
     }
 }
@@ -326,6 +340,7 @@ impl PipeSet {
 mod tests {
     use super::*;
     use crate::tests::cat_builtin;
+    use crate::tests::echo_builtin;
     use crate::tests::return_builtin;
     use crate::tests::suspend_builtin;
     use futures_util::FutureExt as _;
@@ -403,6 +418,43 @@ mod tests {
             let result = pipeline.execute(&mut env).await;
             assert_eq!(result, Continue(()));
             assert_eq!(env.exit_status, ExitStatus(0));
+        });
+    }
+
+    #[test]
+    fn multi_command_pipeline_is_followed_by_traps_for_caught_signals() {
+        use yash_env::system::r#virtual::SIGUSR1;
+        use yash_env::trap::Action;
+        use yash_syntax::source::Location;
+
+        in_virtual_system(|mut env, state| async move {
+            env.builtins.insert("echo", echo_builtin());
+            env.builtins.insert("return", return_builtin());
+            env.traps
+                .set_action(
+                    &env.system,
+                    SIGUSR1,
+                    Action::Command("echo trapped".into()),
+                    Location::dummy(""),
+                    false,
+                )
+                .await
+                .unwrap();
+
+            // The signal is caught while the pipeline is running (here: before)
+            let pid = env.main_pid;
+            let _ = state
+                .borrow_mut()
+                .processes
+                .get_mut(&pid)
+                .unwrap()
+                .raise_signal(SIGUSR1);
+
+            let pipeline: syntax::Pipeline = "return -n 0 | return -n 7".parse().unwrap();
+            let result = pipeline.execute(&mut env).await;
+            assert_eq!(result, Continue(()));
+            assert_eq!(env.exit_status, ExitStatus(7));
+            assert_stdout(&state, |stdout| assert_eq!(stdout, "trapped\n"));
         });
     }
 
